@@ -107,5 +107,10 @@ TrueRow(S) ==
       !.running_tasks = Cardinality(S.cl.running),
       !.finished_tasks = Cardinality({t \in DOMAIN S.cl.fin : S.cl.fin[t]}),
       (* waiting = has not begun, whatever status label the instrument uses *)
-      !.observations_waiting = Cardinality({o \in ObsNames : S.obs[o].ast = NoneT}) ]
+      !.observations_waiting = Cardinality({o \in ObsNames : S.obs[o].ast = NoneT}),
+      (* free hot space = capacity minus what the resident observations deposited *)
+      (* (as long as no tier move was ever made: then everything resides in hot)  *)
+      !.hot_buffer = IF S.nmove = 0
+                     THEN cfg.hotCap - SumFunction([o \in ObsNames \ S.buf.hotFin |-> S.obs[o].data])
+                     ELSE @ ]
 =============================================================================
